@@ -57,6 +57,11 @@ def chkStep (st : Chk) (ev : Event) : Chk :=
     else if hasSub "is_empty" c then .diffEmpty else .none
   | st, _ => st
 
+/-- the guard of `C12_pre_delete_primary_key` in the source: the field's own `primary_key` attribute,
+whatever its type and column (read by the translator on every run) -/
+theorem C12_source_pk_guard :
+    DEvo.Generated.deleteFieldPkGuard = "field_sig.get_attr_value('primary_key')" := by decide
+
 /-- **`_check_simulation` returns normally only when the residual difference is empty, or when
 the evolutions cannot be simulated at all (the documented raw-SQL bypass); in every other
 execution it raises** — so by `C12_gate_handle` a residual difference stops the command before
